@@ -645,7 +645,44 @@ pub fn all_threads_blocked() -> Option<String> {
         if number != "202" { return None; }
         summary.push(format!("{}:{}:futex", name, comm.trim()));
     }
-    Some(summary.join(","))
+    let stacks = capture_stacks();
+    Some(format!("{}{}", summary.join(","), stacks))
+}
+
+/// Once a hang has been classified the process is examined from outside (gdb attaches, prints the innermost frames of every thread and
+/// detaches): where each blocked thread sits — a map shard lock, the total-weight lock, a channel — goes into the finding. Best effort: no
+/// gdb, no permission or a time-out only means that the description stays without stacks. At most three captures per process.
+fn capture_stacks() -> String {
+    // opt-in (CVH_STACKS=1): attaching a debugger to a wedged process costs tens of seconds and, if the debugger itself is killed, can
+    // leave the process stopped; the checks do not need it, it is a diagnosis aid for investigating a classified hang by hand
+    if std::env::var("CVH_STACKS").map(|v| v != "1").unwrap_or(true) { return String::new(); }
+    static CAPTURES: AtomicU64 = AtomicU64::new(0);
+    if CAPTURES.fetch_add(1, Ordering::SeqCst) >= 1 { return String::new(); }
+    let pid = std::process::id();
+    let child = std::process::Command::new("timeout").args(["25", "gdb", "-p", &pid.to_string(), "-batch", "-ex", "thread apply all bt 14"])
+        .stdin(std::process::Stdio::null()).stderr(std::process::Stdio::null()).output();
+    let text = match child { Ok(out) => String::from_utf8_lossy(&out.stdout).to_string(), Err(_) => return String::new() };
+    // keep, per thread, the frames that say where it waits: crate, map, lock and channel frames
+    let mut digest: Vec<String> = Vec::new();
+    let mut current: Vec<String> = Vec::new();
+    for line in text.lines() {
+        if line.starts_with("Thread ") {
+            if !current.is_empty() { digest.push(current.join(" < ")); }
+            current = vec![line.split_whitespace().take(2).collect::<Vec<_>>().join(" ")];
+        } else if line.starts_with('#') {
+            let interesting = ["tinylfu_cached::", "dashmap::", "parking_lot", "crossbeam_channel::", "cvh::"].iter().any(|k| line.contains(k));
+            if interesting && current.len() < 5 {
+                let frame = line.split(" in ").nth(1).unwrap_or(line).split(" (").next().unwrap_or("").split('<').next().unwrap_or("");
+                if !frame.is_empty() && current.last().map(|l| l != frame).unwrap_or(true) { current.push(frame.to_string()); }
+            }
+        }
+    }
+    if !current.is_empty() { digest.push(current.join(" < ")); }
+    if digest.is_empty() { return String::new(); }
+    let dir = std::env::var("CVH_HANG_DIR").unwrap_or_else(|_| "/tmp".into());
+    let path = format!("{}/cvh-hang-{}-{}.txt", dir, pid, CAPTURES.load(Ordering::SeqCst));
+    let _ = std::fs::write(&path, &text);
+    format!(" | stacks (full text: {}): {}", path, digest.join(" || "))
 }
 
 static HELPERS: Mutex<Vec<u64>> = Mutex::new(Vec::new());
